@@ -27,6 +27,25 @@ NOT_APPLICABLE = {p: 'check under construction in this session; not claimed unti
                   for p in ['C%02d' % i for i in range(1, 21)]}
 
 PROPS = {
+    'C12': dict(
+        claimed=True,
+        level='exploration',
+        level_text="The client is steered into one of ten states (incl. dialing, awaiting CONNACK, resending, writers parked inside "
+                   "Write, reconnect pending) with requests of every type in flight; then 1-4 concurrent Close/Disconnect calls "
+                   "(quit nil/open/closed/fired later) are issued, optionally with one of them parked at a hook point between the "
+                   "steps of the shutdown. Return of every call (hang oracle), absence of panics, the state afterwards (ErrClosed "
+                   "everywhere, signals, exchanges, connections closed, goroutine count back to the baseline) and DISCONNECT as "
+                   "last packet are asserted. Placement at gate granularity; not all interleavings.",
+        technique='property-based testing (rapid) over client states x concurrent shutdown calls x hook-point placement; post-state and bounded-liveness oracle',
+        rule="state from {never-connected, dialing, awaiting-connack, resending, online-idle, online-holding, writers-parked, "
+             "offline-after-failed-connect, reconnect-pending, already-closed} x 0-3 requests in flight from {pub0, sub, ping, "
+             "pub1, pub2, unsub} x optional gate from {close.cancel, close.locked, disconnect.cancel, disconnect.locked, "
+             "offline.enter, connect.locked, dial.done, handshake.done} x 1-4 shutdown calls from {Close, Disconnect(nil | open "
+             "| closed | closed later)}. Non-trivial: a state other than online-idle/never-connected, or >= 2 concurrent calls.",
+        assumptions=ASSUME_SIM + ["Disconnect with a nil or unfired quit may wait for a writer which is inside Write (documented: 'nil just blocks'); Close may not"],
+        quick=dict(engines=[rapid('^TestC12', 2400)]),
+        thorough=dict(engines=[rapid('^TestC12', 60000, shards=14, timeout=1500)]),
+    ),
     'C04': dict(
         claimed=True,
         level='exploration',
